@@ -342,6 +342,17 @@ fn mutate(cf: &mut Cf, step: &str) {
                 }
             }
         }
+        // the MiniFAT grows across its sector boundaries (128 entries in version 3, 1024 in version 4): 20 new streams of 63
+        // mini sectors each
+        "grow_minis" => {
+            for i in 0..20 {
+                if let Ok(mut s) = cf.create_stream(format!("/zz_m{}", i)) {
+                    let _ = s.write_all(&[0x51u8; 4000]);
+                    let _ = s.flush();
+                    probe(&mut s);
+                }
+            }
+        }
         "set_len_down" => {
             for p in streams(cf) {
                 if let Ok(mut s) = cf.open_stream(&p) {
